@@ -1,4 +1,5 @@
 import BGV.Props.C11
+import BGV.Algo.DijScan
 /-!
 # Property C19 — path searches do work polynomial in the graph size (part: `findVertexPredecessors`)
 
@@ -35,5 +36,18 @@ theorem C19_allpred_scans (adj : Adj) (s : Nat) (hwf : WF adj) (hs : s < adj.len
   have hg := AllPred.init_ginv adj s
   have := AllPred.loop_scans_le hwf hn (2 * adj.length + 1) _ _ hi hg
   exact ⟨this.1, this.2, AllPred.loop_done hwf hn _ _ _ hi hg (by simp; omega)⟩
+
+/-- **C19, findGeodesicsDijkstra:** for every accepted pop sequence in which every pop was a
+minimum of the worklist (what a correct heap delivers; the model records it in the flag), with
+non-negative weights, the number of neighbourhood scans is at most `E + 1 ≤ V + E + 1`, `E` the
+total length of the neighbour lists — zero-weight cycles included. -/
+theorem C19_dijkstra_scans (adj : Adj) (wt : Nat → Nat → Nat) (s : Nat) (pops : List Nat)
+    (hwf : WF adj) (hs : s < adj.length) (r : Dij.DS × Bool)
+    (hr : DijRun.run wt adj pops (DijRun.init adj.length s) true = some r) (hmin : r.2 = true) :
+    pops.length ≤ Dij.edgeCount adj + 1 := by
+  have := Dij.run_scans hwf pops _ true r 0 [] 0 0 (Dij.init_inv adj wt s hs) (Dij.init_minv adj wt s hs) hr hmin
+  omega
+
+example : Dij.edgeCount [[1, 2], [2], [0, 0]] = 5 := by decide
 
 end BGV
